@@ -11,6 +11,7 @@ pub mod proc_macro2 {
     }
     #[verifier::external_body] #[derive(PartialEq, Eq, Hash)] pub struct Ident { _p: u8 }
     #[verifier::external_body] pub struct TokenStream { _p: u8 }
+    impl core::fmt::Display for Ident { #[verifier::external_body] fn fmt(&self, _f: &mut core::fmt::Formatter<'_>) -> core::fmt::Result { Ok(()) } }
     }
 }
 
